@@ -768,6 +768,12 @@ func (o Object) MarshalJSON() ([]byte, error) {
 				runtime:      o.object.runtime,
 				ArgumentList: []Value{o.value},
 			})
+			if resultVal.IsUndefined() {
+				// JSON.stringify of a function (or of an object whose toJSON gives undefined)
+				// yields no JSON text at all; a json.Marshaler must return one.
+				result = []byte("null")
+				return
+			}
 			result = []byte(resultVal.String())
 		})
 		return result, err
